@@ -435,7 +435,14 @@ def fit_block(ctx):
             a0 = q.unmut(dv[0].args[0]).single_atom()
             k_read = _noidx(a1[2]) if a1 is not None and a1[0] == "sub" else None
             kk = k_store.single_atom()
-            okk = k_read is not None and k_store == k_read and kk is not None and kk[0] == "fstr" and kk[1][0] == const("PC") and T.same(kk[1][1], q.POS + const(1))
+            same_key = k_read is not None and k_store == k_read
+            if not same_key and a1 is not None and a1[0] == "sub" and a0 is not None and a0[0] == "sub":
+                # for key, density in self._density_test.items(): divergence(self._density_reference[key], density) - every stored
+                # test density is paired with the reference density of its own key
+                kr = a1[2].single_atom()
+                same_key = kr is not None and kr[0] == "iterkey" and _table_root(kr[1]) == "_density_test" and _table_root(a1[1]) == "_density_test" \
+                    and a0[2] == a1[2]
+            okk = same_key and kk is not None and kk[0] == "fstr" and kk[1][0] == const("PC") and T.same(kk[1][1], q.POS + const(1))
             ctx.ob("AGREE", U, "test densities are stored and read under the same key 'PC<i+1>' as the reference densities [%s]" % L, okk,
                    "stored under %s, read under %s" % (q.short(k_store, 40), q.short(k_read, 40) if k_read is not None else None), dt[0])
             src = dt[0].value
@@ -517,3 +524,15 @@ def lifecycle(ctx):
     common.lifecycle(ctx, ["PCACD", "PageHinkley"])
     common.init_table(ctx, "PageHinkley", {"_max": 0, "_min": 0, "_sum": 0, "_mean": 0})
     c04.page_hinkley(ctx)
+
+
+def _table_root(t):
+    """the attribute a (possibly filled / loop-carried) table term is the value of"""
+    a = q.unmut(t).single_atom() if t is not None else None
+    while a is not None and a[0] in ("setitem", "mutated", "appended"):
+        a = a[1].single_atom()
+    if a is not None and a[0] == "loopvar" and isinstance(a[2], str):
+        return a[2]
+    if a is not None and a[0] == "attr":
+        return a[1]
+    return None
